@@ -78,6 +78,7 @@ def run_proofs(pid, cfg, log):
     res = {"built": False, "obligations": 0, "discharged": 0, "theorems": [], "open_statements": [],
            "axioms_seen": [], "problems": []}
     with Lock("lean"):
+        sh([sys.executable, os.path.join(ROOT, "tools", "genreg.py")])
         rc, out = sh([sys.executable, os.path.join(ROOT, "tools", "extract.py")] + cfg.get("generated", []))
         log("extract: " + out.strip())
         res["translator"] = out.strip()
@@ -296,9 +297,10 @@ class Engine:
 
 def load_known():
     p = os.path.join(ROOT, "KNOWN_FINDINGS.json")
-    if not os.path.exists(p):
-        return []
-    return json.load(open(p))
+    out = json.load(open(p)) if os.path.exists(p) else []
+    for q in sorted(glob.glob(os.path.join(ROOT, "known_findings.d", "*.json"))):
+        out += json.load(open(q))
+    return out
 
 
 def match_known(pid, engine, viol, known):
